@@ -179,4 +179,94 @@ theorem wholeOf_single (cfg : TxCfg) (st : TxSt) (p : OutPkt) (hp : PktOk p) (hn
   · show p.wire.length < 2 ^ 32
     omega
 
+/-! ### consecutive packets of one sender occupy disjoint sequence ranges -/
+
+/-- the fragmented messages produced by sending `ps` one after the other from state `st` -/
+def msgsOfAll (cfg : TxCfg) : TxSt → List OutPkt → List FMsg
+  | _, [] => []
+  | st, p :: ps =>
+    (if (encFrame (wholeOf cfg st p)).length ≤ cfg.mtu then [] else [msgOf cfg st p]) ++
+      msgsOfAll cfg (sendPacketF cfg st p).1 ps
+
+/-- total number of fragment frames produced -/
+def fragTotal (cfg : TxCfg) : TxSt → List OutPkt → Nat
+  | _, [] => 0
+  | st, p :: ps =>
+    (if (encFrame (wholeOf cfg st p)).length ≤ cfg.mtu then 0 else (msgOf cfg st p).parts.length) +
+      fragTotal cfg (sendPacketF cfg st p).1 ps
+
+theorem msgsOfAll_base (cfg : TxCfg) (hmtu : specMinMtu ≤ cfg.mtu) (hfrag : cfg.fragEnabled = true) :
+    ∀ (ps : List OutPkt) (st : TxSt), (∀ p ∈ ps, PktOk p) →
+      ∀ m ∈ msgsOfAll cfg st ps, ∃ d, m.base = (st.nextSeq + d) % two64 ∧
+        d + m.parts.length ≤ fragTotal cfg st ps := by
+  intro ps
+  induction ps with
+  | nil => intro st _ m hm; simp [msgsOfAll] at hm
+  | cons p ps ih =>
+    intro st hok m hm
+    have hp := hok p (by simp)
+    have hrest : ∀ q ∈ ps, PktOk q := fun q hq => hok q (by simp [hq])
+    simp only [msgsOfAll, List.mem_append] at hm
+    by_cases hfit : (encFrame (wholeOf cfg st p)).length ≤ cfg.mtu
+    · simp only [hfit, if_true, List.not_mem_nil, false_or] at hm
+      obtain ⟨d, hd1, hd2⟩ := ih _ hrest m hm
+      rw [sendPacketF_single cfg st p hfit] at hd1 hd2
+      dsimp only at hd1 hd2
+      exact ⟨d, hd1, by simp only [fragTotal, hfit, if_true, sendPacketF_single cfg st p hfit]; omega⟩
+    · have htok' : (hdrOf cfg st p).token.length ≤ 32 := by
+        have : p.token.length ≤ 32 := hp.tok
+        simpa [hdrOf, headerOf] using this
+      have hov := overheadOf_le htok'
+      have hmtu' : 128 ≤ cfg.mtu := hmtu
+      have hlt : ¬ cfg.mtu ≤ overheadOf (hdrOf cfg st p) := by omega
+      simp only [hfit, if_false, List.mem_singleton] at hm
+      rcases hm with rfl | hm
+      · exact ⟨0, by simp [msgOf], by simp only [fragTotal, hfit, if_false]; omega⟩
+      · obtain ⟨d, hd1, hd2⟩ := ih _ hrest m hm
+        rw [sendPacketF_frag cfg st p hfit hfrag hlt] at hd1 hd2
+        dsimp only at hd1 hd2
+        refine ⟨(chunks (payloadRoom cfg st p) p.wire).length + d, ?_, ?_⟩
+        · rw [hd1]; unfold two64; omega
+        · simp only [fragTotal, hfit, if_false, sendPacketF_frag cfg st p hfit hfrag hlt, msgOf]
+          omega
+
+/-- fewer than 2^64 fragment frames in total ⇒ all base sequence numbers are different -/
+theorem msgsOfAll_bases_nodup (cfg : TxCfg) (hmtu : specMinMtu ≤ cfg.mtu) (hfrag : cfg.fragEnabled = true) :
+    ∀ (ps : List OutPkt) (st : TxSt), (∀ p ∈ ps, PktOk p) → fragTotal cfg st ps < two64 →
+      ((msgsOfAll cfg st ps).map FMsg.base).Nodup := by
+  intro ps
+  induction ps with
+  | nil => intro st _ _; simp [msgsOfAll]
+  | cons p ps ih =>
+    intro st hok htot
+    have hp := hok p (by simp)
+    have hrest : ∀ q ∈ ps, PktOk q := fun q hq => hok q (by simp [hq])
+    simp only [msgsOfAll]
+    by_cases hfit : (encFrame (wholeOf cfg st p)).length ≤ cfg.mtu
+    · simp only [hfit, if_true, List.nil_append]
+      apply ih _ hrest
+      simp only [fragTotal, hfit, if_true] at htot
+      omega
+    · have htok' : (hdrOf cfg st p).token.length ≤ 32 := by
+        have : p.token.length ≤ 32 := hp.tok
+        simpa [hdrOf, headerOf] using this
+      have hov := overheadOf_le htok'
+      have hmtu' : 128 ≤ cfg.mtu := hmtu
+      have hlt : ¬ cfg.mtu ≤ overheadOf (hdrOf cfg st p) := by omega
+      have hwf := msgOf_wf cfg st p hp hmtu hfit
+      simp only [fragTotal, hfit, if_false] at htot
+      simp only [hfit, if_false, List.singleton_append, List.map_cons, List.nodup_cons]
+      refine ⟨?_, ih _ hrest (by omega)⟩
+      intro hmem
+      obtain ⟨m, hm, hb⟩ := List.mem_map.mp hmem
+      obtain ⟨d, hd1, hd2⟩ := msgsOfAll_base cfg hmtu hfrag ps _ hrest m hm
+      rw [sendPacketF_frag cfg st p hfit hfrag hlt] at hd1 hd2 htot
+      dsimp only at hd1 hd2 htot
+      have h2 := hwf.two_le
+      have hmlen : (msgOf cfg st p).parts.length = (chunks (payloadRoom cfg st p) p.wire).length := rfl
+      have hbase : (msgOf cfg st p).base = st.nextSeq % two64 := rfl
+      rw [hbase, hd1] at hb
+      unfold two64 at *
+      omega
+
 end Ndn.C10
